@@ -30,6 +30,11 @@ func checkC06(p *Prog, r *Report) {
 	r.Floor("POS", 1)
 	ruleWalkErr(p, r)
 	ruleHdrFlow(p, r)
+	ruleBoxTbl(p, r)
+	ruleBoxPure(p, r)
+	ruleWalkPanic(p, r)
+	r.Floor("WALKPANIC", 1)
+	r.Floor("BOXPURE", 1)
 	r.Floor("HDRFLOW", 8)
 	r.Floor("WALKERR", 5)
 	r.Floor("HDR", 4)
